@@ -111,12 +111,12 @@ CFG["theorems"] += [T + n for n in TIE_THEOREMS]
 CFG["pregen"] = pregen
 CFG["trusted_base"].append(
     "T1: harness/cmd/c03/extract.go (go/ast, translation table in its header) regenerates lean/GeomV/C03/Gen.lean from area.go (signedarea, area, Polygon.Area, Polygon.ringBounds, centroidAxisScale, centroidScale, Polygon.scaled, centroidAxisOrigin, centroidOrigin, Polygon.translated, Polygon.Centroid with its origin guard and its range guard), "
-    "multipolygon.go (Area, Centroid with its origin guard and its range guard), op/properties.go (area, length, centroidAxisOrigin, centroidOrigin, the Polygon case of Centroid with its inline origin guard and range guard, the Polygon / MultiPolygon / GeometryCollection cases of Area, the LineString / MultiLineString / GeometryCollection cases of Length), bounds.go (Area, Centroid), linestring.go / multilinestring.go (Length, Distance), "
+    "multipolygon.go (Area, Centroid with its origin guard and its range guard), op/properties.go (area, length, centroidAxisOrigin, centroidOrigin, the Polygon case of Centroid with its inline origin guard and range guard, the Polygon / MultiPolygon / GeometryCollection / no-case-matches cases of Area, the LineString / MultiLineString / GeometryCollection / no-case-matches cases of Length), bounds.go (Area, Centroid), linestring.go / multilinestring.go (Length, Distance), "
     "simplify.go (pointSubtract, dot, norm, d, distPointToSegment), similar.go (similar, pointSimilar, pointsSimilar), point.go (Buffer) of the tree under test on every run, in a faulting monad (index, index assignment, slice, make, integer %, nil box, panic are partial: GenLib.lean; loops with return/continue keep their control flow); "
     "Ties.lean proves that each regenerated function returns the model's value (areas, lengths, distances, MultiPolygon/op centroids: WITHOUT FAULT for every input; Polygon.Centroid, Point.Buffer: fault for fault; area: for the boxes of the rings of p and i < len(p); scaled: for non-zero factors). "
     "Recognised statement groups, refused (exit 3, tie broken) when their text changes: the accumulator group `cx /= 6*d; cy /= 6*d; A += w; xA += cx*w; yA += cy*w` / `var A, xA, yA float64` / `return Point{xA/A, yA/A}` = CAcc.add / CAcc.zero / CAcc.finish (float division by zero); "
     "the body of centroidAxisScale and the two inline axis-scale blocks of op.Centroid (compared as text) = axisScale (Frexp/Ldexp over Rat = pow2Floor); `return Point{X: c.X * kx, Y: c.Y * ky}` in a centroid range guard = unscale; `return Point{X: c.X + ox, Y: c.Y + oy}` in a centroid origin guard = unshift; the body of centroidAxisOrigin (compared as text; a Rat is finite) = the identity; the guard of distPointToSegment (`if m := E; (m >= 0x1p500 || (m <= 0x1p-500 && m > 0)) && !math.IsInf(m, 0) { _, e := math.Frexp(m); k := math.Ldexp(1, e-1); return k * distPointToSegment(...) }`, compared as text) = `match RNum.rescale E`; "
-    "a function's call of itself inside its range guard (Polygon.Centroid, MultiPolygon.Centroid, op.Centroid, distPointToSegment on the rescaled copy) is read as the code below the guard, inside the origin guard of the centroids (on the translated copy) as the code below that guard (range guard + loops; centOrigin_translate: the first vertex of the translated copy is the origin); a type switch on g geom.Geom is regenerated per listed case (the statements around the switch with the case's body in its place; a call f(x) with x of static type T is case T; in the GeometryCollection case the function's call of itself on a member — static type geom.Geom, dynamic type unknown — is the parameter `self` of the regenerated case, and Ties.lean proves that the model of the whole function (ModelGC.lean: opAreaGeom, opLengthGeom, structural recursion over the nested geometry) is a fixed point of the switch assembled from the regenerated cases: C03_tie_op_Area_Geom, C03_tie_op_Length_Geom; the line `no case matches: the initial 0 is returned` of that switch is hand-written); "
+    "a function's call of itself inside its range guard (Polygon.Centroid, MultiPolygon.Centroid, op.Centroid, distPointToSegment on the rescaled copy) is read as the code below the guard, inside the origin guard of the centroids (on the translated copy) as the code below that guard (range guard + loops; centOrigin_translate: the first vertex of the translated copy is the origin); a type switch on g geom.Geom is regenerated per listed case (the statements around the switch with the case's body in its place; a call f(x) with x of static type T is case T; in the GeometryCollection case the function's call of itself on a member — static type geom.Geom, dynamic type unknown — is the parameter `self` of the regenerated case, and Ties.lean proves that the model of the whole function (ModelGC.lean: opAreaGeom, opLengthGeom, structural recursion over the nested geometry) is a fixed point of the switch assembled from the regenerated cases: C03_tie_op_Area_Geom, C03_tie_op_Length_Geom; a geometry that no case lists is the regenerated case `other`: the default clause when there is one, otherwise the statements around the switch; only the dispatch on the constructor is written by hand); "
     "calls into other files are the models' functions: pointInPolygon = property C02's model of within.go with the boxes the code passes. "
     "Not modelled by the translation: slice capacity (taken = length), aliasing (observed by the harness), a nil *Bounds receiver of bounds.go's Area/Centroid, the default (unsupported geometry error) case of op.Centroid (observed by the `opfix`/corpus lines only); "
     "in the exact (Rat) rendering a float64 division by a computed zero ends the rendering (Go.Fault.nonFinite; only in Polygon.scaled, proved not to occur for the factors centroidScale returns)")
